@@ -1,6 +1,6 @@
 """Claim texts for MANIFEST.json (tools/gen_manifest.py writes the file)."""
 
-REPO_FIX_COMMITS = ["d6b93bf (C15)", "bf9879b (C18)", "00db926 (C17)", "69cf7c1 (C14)", "6437988 (C11)", "98f4235 (C11)", "997be27 (C12)", "fbe6454 (C02)", "17a33b1 (C01)", "bcface1 (C01)", "7c09e08 (C08)", "d75f5c1 (C05)", "66c726b (C05,C09)", "cd30f54 (C06)", "a1bd023 (C06)", "41fa818 (C07)", "9927cea (C07)", "4b8e704 (C07)"]
+REPO_FIX_COMMITS = ["d6b93bf (C15)", "bf9879b (C18)", "00db926 (C17)", "69cf7c1 (C14)", "6437988 (C11)", "98f4235 (C11)", "997be27 (C12)", "fbe6454 (C02)", "17a33b1 (C01)", "bcface1 (C01)", "7c09e08 (C08)", "d75f5c1 (C05)", "66c726b (C05,C09)", "cd30f54 (C06)", "a1bd023 (C06)", "41fa818 (C07)", "9927cea (C07)", "4b8e704 (C07)", "3f4bb24 (C19)", "303540a (C20)", "57b784c (C09)"]
 
 _PENDING = "checker for this property is not built yet in this round (see DESIGN.md section 3 for the planned rule)"
 
@@ -172,6 +172,45 @@ CLAIMS.update({
         note="Not decided: actual interleavings (model checking), numeric equality with a fresh model, direct edits of model.equations."),
 })
 
-NOT_APPLICABLE = {p: _PENDING for p in
-                  ["C03", "C04", "C09",
-                   "C16", "C19", "C20"]}
+CLAIMS.update({
+    "C09": dict(
+        technique="def-use dependence of the session run specs on scenario attributes + ordering rules on the step path + single-series-expression rule + handler pass-through rule + session key agreement",
+        design_ref="DESIGN.md 3/C09",
+        text="Decides the structural conditions under which the channels can agree: the session's start/stop/dt are data-dependent on "
+             "the selected scenarios' own attributes and the clock starts at the session start; run_step simulates, logs under the "
+             "pre-advance step, then advances (normalised, shared with C05) and serves the stop time inclusive; the runner applies step "
+             "settings before start(), keeps the live simulation, simulates exactly [step, step]; session_results re-indexes exactly what "
+             "was logged; the dataframe, dict and JSON values are all df[equation] of the scenario's result frame; the five stepping/"
+             "result handlers pass what run_scenarios/run_step/session_results return through a serialiser untouched; every "
+             "session_state key read in bptk.py or the server is written by begin_session.",
+        note="Not decided: value equality across channels; json/jsonpickle float fidelity."),
+    "C16": dict(
+        technique="ownership analysis: provenance of instance records, own-id argument rule, who-may-touch rule for the shared bptk, statics rule",
+        design_ref="DESIGN.md 3/C16",
+        text="Decides that every instance record holds a bptk object made by a fresh factory call for that record and stored under its "
+             "own id; all 12 instance-manager/adapter calls in the nine instance-scoped handlers (and their nested generator) are made with "
+             "the handler's own instance_uuid, none touches the server's shared bptk or the instance table directly; stop removes only the "
+             "addressed id; no class-level mutable exists on the session path, module-level objects are written only at construction "
+             "(frozen allow-list with reasons), mutable default arguments of the session API are not written into.",
+        note="Not decided: what a user's factory shares between its products; interleavings inside one request."),
+    "C19": dict(
+        technique="def-use of the step key through (de)compression + nullability of logged values + record key/path agreement + wiring of (de)compressors and InstanceState fields",
+        design_ref="DESIGN.md 3/C19",
+        text="Decides: the step key flows into what compress_* emits and is taken from the input by decompress_* (fails by design of the "
+             "format: four known findings); every value run_step can log as settings is accepted by compress_settings; FileAdapter reads "
+             "only keys it writes, fills each from the like-named field, builds one path expression for save/load/delete; each adapter "
+             "entry point applies the matching (de)compressor to the matching log under the compress flag; InstanceState is built in its "
+             "declared field order at both sites; the whole session state is deep-copied out and installed back unfiltered; stepping "
+             "handlers save after stepping.",
+        note="Not decided: jsonpickle fidelity; equality of served results before/after."),
+    "C20": dict(
+        technique="write-then-rename shape rule + None-producer vs dereferencing-consumer contradiction rule + call-graph reachability of a settings replay + handler coverage in thread targets",
+        design_ref="DESIGN.md 3/C20",
+        text="Decides four necessary conditions of crash tolerance: atomic replacement of the state file, filtering of unreadable files "
+             "before every consumer of load_state() (repaired), a path from the restore entry to a replay of settings/settings_log, and "
+             "that a failing equation in a worker thread is reported or detected. Three of them fail on the current tree and are known "
+             "findings with reproducing histories; the check still reports any *other* consumer, writer or handler that breaks them.",
+        note="Not decided: equality of continued values; crash timing, OS buffering."),
+})
+
+NOT_APPLICABLE = {p: _PENDING for p in ["C03", "C04"]}
